@@ -58,17 +58,18 @@ Fix(c) == [c EXCEPT !.ops = <<c.ops[1], [c.ops[2] EXCEPT !.op = "recvall"]>>]
 \* ---- receiver short of descriptor slots (RLIMIT_NOFILE): free slots around the number attached
 Frees == {0, 1, 2, MaxFds - 1}
 PressPairs ==
-  { [layer |-> "raw", passcred |-> TRUE, part |-> "press", inspect |-> "now", ops |-> <<S(l, 0, k, c, ""), RAF(Big + 64, "", f)>>] :
-      l \in {1, Buf}, k \in FdsFull, c \in {"none", "forged"}, f \in Frees }
-  \cup UNION { { [layer |-> "gob", passcred |-> TRUE, part |-> "press", inspect |-> "now", ops |-> <<S(0, v, k, "none", t), RAF(0, w, f)>>] :
-      v \in {64, Cap - Desc(t)}, k \in FdsFull, w \in {"M", "X"}, f \in Frees } : t \in {"A", "B"} }
+  \* free slots x SO_PASSCRED on/off (with it the control data is never empty) x descriptors sent
+  { [layer |-> "raw", passcred |-> pc, part |-> "press", inspect |-> "now", ops |-> <<S(l, 0, k, c, ""), RAF(Big + 64, "", f)>>] :
+      l \in {1, Buf}, k \in FdsFull \cup {3, 5}, c \in {"none", "forged"}, f \in Frees, pc \in BOOLEAN }
+  \cup UNION { { [layer |-> "gob", passcred |-> pc, part |-> "press", inspect |-> "now", ops |-> <<S(0, v, k, "none", t), RAF(0, w, f)>>] :
+      v \in {64, Cap - Desc(t)}, k \in FdsFull \cup {5}, w \in {"M", "X"}, f \in Frees, pc \in BOOLEAN } : t \in {"A", "B"} }
 \* histories: a message refused for lack of slots must not disturb what follows (ledger, gob stream)
 PressOps(layer) == IF layer = "raw"
-                   THEN { S(1, 0, k, "none", "") : k \in {0, 1, 2} } \cup { RF(Big + 64, "", f) : f \in {-1, 1} }
-                   ELSE { S(0, 64, k, "none", t) : k \in {0, 2}, t \in {"A", "B"} } \cup { RF(0, "M", f) : f \in {-1, 1} }
+                   THEN { S(1, 0, k, "none", "") : k \in {0, 1, 2} } \cup { RF(Big + 64, "", f) : f \in {-1, 0, 1} }
+                   ELSE { S(0, 64, k, "none", t) : k \in {0, 2}, t \in {"A", "B"} } \cup { RF(0, "M", f) : f \in {-1, 0, 1} }
 PressHist(layer) ==
-  { [layer |-> layer, passcred |-> TRUE, part |-> "presshist", inspect |-> "end", ops |-> Append(s, RAF(IF layer = "raw" THEN Big + 64 ELSE 0, IF layer = "raw" THEN "" ELSE "M", f))] :
-      s \in { x \in Seqs(PressOps(layer), HLen) : Valid(layer, x) }, f \in {1, 2} }
+  { [layer |-> layer, passcred |-> pc, part |-> "presshist", inspect |-> "end", ops |-> Append(s, RAF(IF layer = "raw" THEN Big + 64 ELSE 0, IF layer = "raw" THEN "" ELSE "M", f))] :
+      s \in { x \in Seqs(PressOps(layer), HLen) : Valid(layer, x) }, f \in {0, 2}, pc \in BOOLEAN }
 
 \* ---- rejected packets anywhere in a sequence of framed messages: the receiver keeps reading on the same
 \* socket; every later message must come out exactly as sent, with its own descriptors
